@@ -7,7 +7,7 @@ import shutil
 import time
 
 from vlib import core
-from vlib.c19sig import chain_walk_flags, spell_sig, walk_flags
+from vlib.c19sig import chain_walk_flags, noncanon, spell_sig, walk_flags
 from vlib.tlc import MachineryError, run_tlc
 
 PROP = 'C19'
@@ -41,7 +41,8 @@ def sig_of(m: dict) -> dict:
         if part == 'walks':
             sig.update(walk_flags(member['backend'], call['arg'], files_of(member['files'])))
         else:
-            sig.update({'backend': member['backend'], 'spelling': 'via-chain', 'backslash': '\\' in call['arg']})
+            sig.update({'backend': member['backend'], 'spelling': 'via-chain', 'backslash': '\\' in call['arg'],
+                        'noncanon': noncanon(call['arg'])})
     elif item is not None:
         text = ''.join(s + c for s, c in item['toks'])
         sig['query'] = text
